@@ -669,6 +669,9 @@ fn bisect(scenario: &str, profile: &str, hi: u64, timeout: Duration) -> u64 {
 pub struct C16;
 
 impl Check for C16 {
+    fn stall_secs(_tier: Tier) -> Option<u64> {
+        None
+    }
     type Case = Case;
     const ID: &'static str = "C16";
     fn rule() -> String {
